@@ -254,7 +254,27 @@ let query (p : pool) toks : string =
                   | OT t -> pset ^ Printf.sprintf " rows=%s rwo=%s nrows=%d nvars=%d" (pts (obj_domain o)) (rel_str (obj_relation o))
                                      (1 lsl (List.length t.t_inputs)) (List.length t.t_inputs)
                   | _ -> pset)) in
-           (fun s -> s ^ extra) @@
+           (* the iterator machines of Model/Iter.v stepped by next(): 2^n + 2 calls on fresh iterators, nth(n) and
+              nth(2^n - 1) each followed by one more next(), count() of the image, last() of the domain *)
+           let iters =
+             let n = int_of_nat (obj_dom_count o) in
+             if n > 12 then "" else begin
+               let k = nat_of_int ((1 lsl n) + 2) in
+               let opt f = function None -> "~" | Some x -> f x in
+               let rl (q, b) = pt q ^ ":" ^ (if b then "1" else "0") in
+               let pair f (a, b) = opt f a ^ "/" ^ opt f b in
+               let n1 = nat_of_int n and n2 = nat_of_int ((1 lsl n) - 1) in
+               Printf.sprintf " nx.dom=%s nx.img=%s nx.rel=%s nx.sup=%s nth.dom=%s;%s nth.rel=%s;%s cnt.img=%d last.dom=%s rest=%s"
+                 (String.concat "," (List.map (opt pt) (obj_dom_steps o k)))
+                 (String.concat "" (List.map (opt (fun b -> if b then "1" else "0")) (obj_img_steps o k)))
+                 (String.concat "," (List.map (opt rl) (obj_rel_steps o k)))
+                 (match obj_sup_steps o k with None -> "*" | Some l -> String.concat "," (List.map (opt pt) l))
+                 (pair pt (obj_dom_nth o n1)) (pair pt (obj_dom_nth o n2))
+                 (pair rl (obj_rel_nth o n1)) (pair rl (obj_rel_nth o n2))
+                 (int_of_nat (obj_img_count o)) (opt pt (obj_dom_last o))
+                 (let (c, l) = obj_dom_rest o n1 in Printf.sprintf "%d/%s;%d" (int_of_nat c) (opt pt l) (int_of_nat (obj_img_rest o n1)))
+             end in
+           (fun s -> s ^ extra ^ iters) @@
            Printf.sprintf "kind=%s inputs=%s ess=%s deg=%d essdeg=%d dom=%s img=%s rel=%s sup=%s w=%d sat=%s nodes=%s s.rel=%s s.inputs=%s s.ess=%s s.sup=%s s.w=%d"
              (kind_char o) (names (obj_inputs o))
              (match obj_essential o with Ok l -> names l | _ -> "panic")
